@@ -1,3 +1,4 @@
+import PokerVerif.Lemmas.TBClosed
 import PokerVerif.Lemmas.TBBasic
 /-!
 # C07 — Table status follows its life cycle; one hand at a time; hands are numbered
@@ -80,6 +81,19 @@ theorem C07_retry_open_counts (s : State) (choice : Option Int) (createOk : Bool
   · rw [hc] at h ⊢
     obtain ⟨c1, c2, c3, _, _⟩ := openCore_opened _ _ _ h
     exact ⟨c1, c2, c3, h1, h2, h3, h5, h4⟩
+
+/-- **C07 — no hand opens after the table has been closed or released, whatever happens next**: from a released table
+(`CloseTable` releases the table too) no history of any length — arrivals, sit-ins, top-ups, level changes, gate set-ups and
+firings, turns of the retry loop, settlements of a hand still running, the continue step, … — raises the game count, and
+the table stays released. -/
+theorem C07_closed_for_good (s : State) (evs : List Event) (h : s.released = true) :
+    (run s evs).released = true ∧ (run s evs).gameCount = s.gameCount :=
+  run_closed s evs h
+
+/-- … in particular after `CloseTable` / `ReleaseTable` at any moment of any history -/
+theorem C07_after_close (s : State) (evs : List Event) :
+    (run (close s) evs).gameCount = s.gameCount ∧ (run (release s) evs).gameCount = s.gameCount :=
+  ⟨(run_closed (close s) evs rfl).2, (run_closed (release s) evs rfl).2⟩
 
 /-- **C07 — the game count changes at no other step**: a fire that does not open, a settlement, the continue step
 and every administrative operation leave it alone. -/
